@@ -40,6 +40,9 @@ def rel15(a: float, b: float) -> int:
 
 
 # ---- workers (run in sub-processes) ---------------------------------------------------------------------------
+STD_CONDITIONS = [None, (60.0, 14.7), (59.0, 14.65), (68.0, 14.73), (60.0, 15.025)]
+
+
 def _pressures(pb: float) -> list[tuple[float, str]]:
     lo = 14.7
     below = [lo + f * (pb - lo) for f in (0.0, 0.1, 0.3, 0.5, 0.7, 0.9, 0.99)] + [pb * (1.0 - 1e-12)]
@@ -75,13 +78,19 @@ def oil_sweep(args):
         dbo = float(oil.db_o_dgor_Standing(T, api, gg, rs_pub))
         _bo, dbo_ad = derivative(lambda r: oil.b_o_bubblepoint_Standing(T, api, gg, r), rs_pub)
         # all-pressure compressibility
-        co = float(oil.oil_compressibility_Standing(T, p, api, gg, gor, tpc, ppc))
+        # standard conditions are arguments of the all-pressure compressibility: they must reach its B_g (default and
+        # non-default values alternate from oil to oil)
+        std = STD_CONDITIONS[int(round(T * 7 + api * 3 + gor)) % len(STD_CONDITIONS)]
+        if std is None:
+            co = float(oil.oil_compressibility_Standing(T, p, api, gg, gor, tpc, ppc))
+        else:
+            co = float(oil.oil_compressibility_Standing(T, p, api, gg, gor, tpc, ppc, std[0], std[1]))
         agree = {"dgor_ad": rel15(dgor, drs_ad), "dgor_zero": rel15(dgor, 0.0), "dgor_ad_zero": rel15(drs_ad, 0.0),
                  "dbo_ad": rel15(dbo, dbo_ad)}
         raw = {"p": p, "side": side, "dgor_dpressure": dgor, "dRs_dp_AD": drs_ad, "db_o_dgor": dbo,
                "dBo_dRs_AD": dbo_ad, "c_o": co}
         if side == "below":
-            bg = float(gas.b_factor_DAK(T, p, tpc, ppc))
+            bg = float(gas.b_factor_DAK(T, p, tpc, ppc)) if std is None else float(gas.b_factor_DAK(T, p, tpc, ppc, std[0], std[1]))
             bob_i = float(oil.b_o_bubblepoint_Standing(T, api, gg, gor))
             ref = (bg - dbo) * dgor / bob_i
             agree["co_assembly"] = rel15(co, ref)
